@@ -215,7 +215,7 @@ Proof.
   pose proof (IH (fun t Ht => H t (or_intror Ht)) (z + 1)%Z i1) as Hl. fold (rst_items body o b) in *.
   destruct (rst_items body o b (z + 1)%Z r i1) as [y i2]. cbn [fst] in *.
   rewrite MdProofs.Ls_app, proj_app. apply MdProofs.subseq_app; [|exact Hl].
-  rewrite (MdProofs.item_text_L U strip_end_rx strip_end_rx keep keep_no_sep). apply subseq_drop. exact Ha.
+  rewrite (MdProofs.item_text_L keep keep_no_sep). apply subseq_drop. exact Ha.
 Qed.
 
 Lemma node_sub_n : forall k n, nsize n <= k -> forall prev par imgs, subseq (Ls (nleaves n)) (L (fst (rnode prev par n imgs))).
